@@ -249,6 +249,8 @@ func runC15(c *Ctx) {
 					}
 					if callee != nil && callee.Name() == "Clone" && callee.Pkg != nil && (callee.Pkg.Pkg.Path() == "maps" || callee.Pkg.Pkg.Path() == "slices") {
 						okUse, d = true, "maps.Clone"
+					} else if callee != nil && callee.Pkg != nil && callee.Pkg.Pkg.Path() == "maps" && callee.Name() == "Copy" && len(cc.Args) == 2 && cc.Args[1] == v && cc.Args[0] != v {
+						okUse, d = true, "source of maps.Copy (read only)"
 					} else if callee != nil && callee.Pkg != nil && (callee.Pkg.Pkg.Path() == "bytes" || callee.Pkg.Pkg.Path() == "strings") {
 						okUse, d = true, "read-only argument of "+callee.Pkg.Pkg.Path()+"."+callee.Name()
 					} else if callee != nil && c.P.InScope(callee) {
